@@ -238,8 +238,20 @@ def run(ctx: Ctx) -> None:
     # cross-check: the parameter parser is the reference implementation).
     from ..pmodel import ParserModel
     pm = ParserModel(ctx.repo)
-    ctx.rule("R17.7", "type-id positions (parameter, alias) accept the array suffix that format() writes", minimum=2)
-    for fname, built in (("_parse_parameter", "Parameter / TemplateNonTypeParam"), ("_parse_using_typealias", "UsingAlias")):
+    ctx.rule("R17.7", "type-id positions (parameter, alias, template argument) accept the array suffix that format() writes", minimum=3)
+    type_id_array_suffix(ctx, "R17.7", pm)
+
+    # ---------------------------------------------------------------- R17.6
+    from . import c16
+    from ..report import SubCtx
+    # the families already listed for C16 are the same defect seen through Value.format(); they stay keyed under C16 only
+    drop = {k["key"] for k in _known()}
+    c16.run(SubCtx(ctx, {"R16.1": ("R17.6", "token values inside types re-lex to the same tokens (pair analysis of C16)")}, drop))  # type: ignore[arg-type]
+
+
+def type_id_array_suffix(ctx: Ctx, rid: str, pm: ParserModel) -> None:
+    """every position where a type-id is read (parameter, alias, template argument) reads the array suffix too"""
+    for fname, built in (("_parse_parameter", "Parameter / TemplateNonTypeParam"), ("_parse_using_typealias", "UsingAlias"), ("_parse_template_specialization", "TemplateArgument")):
         cfg = pm.cfg(fname)
         cv = [n for n in cfg.nodes for c, r in pm.node_calls(fname, n) if r is not None and r[0] == "self" and r[1] in ("_parse_cv_ptr", "_parse_cv_ptr_or_fn")]
         arr = [n for n in cfg.nodes for c, r in pm.node_calls(fname, n) if r is not None and r == ("self", "_parse_array_type")]
@@ -263,16 +275,9 @@ def run(ctx: Ctx) -> None:
                 guarded.append(good and any(_reaches(c0, a) for c0 in cv))
             ok = any(guarded)
             why = f"{fname} does not reach _parse_array_type under a token_if('[') test after the pointer part"
-        ctx.ob("R17.7", f"parser:CxxParser.{fname}|array suffix of a type-id ({built})", ok,
-               msg=f"{why}: '{'using A = int[3];' if 'alias' in fname else 'void f(int[3]);'}' - which is what format() writes for an array type in this position - is rejected",
+        ctx.ob(rid, f"parser:CxxParser.{fname}|array suffix of a type-id ({built})", ok,
+               msg=f"{why}: '{'using A = int[3];' if 'alias' in fname else 'Foo<int[3]> x;' if 'template' in fname else 'void f(int[3]);'}' - which is what format() writes for an array type in this position - is rejected",
                node=pm.fn(fname), mod=pm.mod)
-
-    # ---------------------------------------------------------------- R17.6
-    from . import c16
-    from ..report import SubCtx
-    # the families already listed for C16 are the same defect seen through Value.format(); they stay keyed under C16 only
-    drop = {k["key"] for k in _known()}
-    c16.run(SubCtx(ctx, {"R16.1": ("R17.6", "token values inside types re-lex to the same tokens (pair analysis of C16)")}, drop))  # type: ignore[arg-type]
 
 
 def _reaches(a, b) -> bool:
